@@ -123,9 +123,10 @@ inductive OptRule where
   /-- `v = options.get(key, dflt)`; unless (`noneSkips` and `v is None`):
       `try: v = int(v) except caught: raise SQLParseError`; `if v < bound` (`strict`) / `v <= bound`: raise SQLParseError;
       `options[key] = v` iff `storeInside`; for each `(k, d)` of `fill`: `options[k] = options.get(k, d)`.
+      then for each `k` of `mustStr`: `if not isinstance(options[k], str): raise SQLParseError`.
       Finally `options[key] = v` iff `storeAfter` (also when the stanza was skipped, with `v = None`). -/
   | intOpt (key : String) (dflt : PyVal) (noneSkips : Bool) (caught : List PyErr) (bound : Int) (strict : Bool)
-           (storeInside : Bool) (fill : List (String × PyVal)) (storeAfter : Bool)
+           (storeInside : Bool) (fill : List (String × PyVal)) (storeAfter : Bool) (mustStr : List String)
 deriving Repr
 
 end Sql
